@@ -289,7 +289,6 @@ class Sequencer(object):
 
         for p in playing:
             self.stop_NoteContainer(p[1], p[2])
-            playing.remove(p)
         return {"bpm": bpm}
 
     def play_Track(self, track, channel=1, bpm=120):
